@@ -108,7 +108,44 @@ func checkC17(c *Check) {
 		}
 		ok := lockT != nil && start != nil && deferUnlock && dominatesInstr(lockT, start) && len(extraConds(controlDeps(tr), lockT.Block())) == 0
 		c.Cond(ok, "3/thread-affinity", "ptracer.Trace", p.Pos(tr.Pos()), "the OS thread is locked before the tracee is started and unlocked on return", "Trace does not lock the OS thread before starting the tracee (ptrace requests would be issued from a thread that is not the tracer)")
-		c.Expect("3/thread-affinity", 1)
+		// the lock is paired on EVERY path: no return is reachable after the lock without the unlock having been
+		// registered (deferred) or called. A goroutine that ends while still locked makes the Go runtime terminate
+		// its OS thread, and every child created from that thread with a parent-death signal (all container inits
+		// forked there) is killed.
+		if lockT != nil {
+			isUnlock := func(in ssa.Instruction) bool {
+				if ci, ok := in.(ssa.CallInstruction); ok {
+					n, _ := calleeOf(ci)
+					return n == "runtime.UnlockOSThread"
+				}
+				return false
+			}
+			leaks, trail := pathQuery{fn: tr, from: lockT, target: isReturnOrPanic, stop: isUnlock}.find()
+			c.Cond(!leaks, "3/thread-affinity", "ptracer.Trace:unlock-on-every-path", p.Pos(lockT.Pos()), "every path after LockOSThread has registered or made the unlock",
+				"Trace can return with its OS thread still locked ("+p.trail(trail)+"): when the goroutine ends the runtime destroys the thread, which kills every container init forked from it (parent-death signal)")
+		}
+		c.Expect("3/thread-affinity", 2)
+	}
+	// the process-wide switch of the string reader flips only when the primitive does not exist (the assumption
+	// under which it is allow-listed above): rule C02.7, and the sync-pair descriptors are released exactly once: C12.2
+	{
+		sub := NewCheck("C02", c.Tier, c.P)
+		checkC02Reader(sub)
+		n := 0
+		for _, o := range sub.Obs {
+			if strings.Contains(o.Key, ":store(") {
+				n++
+				c.Obs = append(c.Obs, Obligation{Rule: "C17.6/shared-switch-and-descriptors", Key: o.Key, Pos: o.Pos, Status: o.Status, Msg: o.Msg})
+			}
+		}
+		sub12 := NewCheck("C12", c.Tier, c.P)
+		checkDescriptorPairing(sub12)
+		for _, o := range sub12.Obs {
+			if strings.HasSuffix(o.Key, ":once") {
+				c.Obs = append(c.Obs, Obligation{Rule: "C17.6/shared-switch-and-descriptors", Key: o.Key, Pos: o.Pos, Status: o.Status, Msg: o.Msg})
+			}
+		}
+		c.Expect("6/shared-switch-and-descriptors", 3)
 	}
 
 	// ---------- 4: waits are specific ----------
